@@ -292,8 +292,12 @@ def selftest_phi():
     return True
 
 
-def etdrk_ref(order, dt, lam, u, nonlin):
+def etdrk_ref(order, dt, lam, u, nonlin, jitter=None):
     """Cox & Matthews (2002) ETDRK-p, p=0..4, with exact phi coefficients.
+
+    jitter=(seed, rel): multiply every coefficient array by (1 + rel*g), g standard complex normal - used to
+    MEASURE the conditioning of a step (how much an rel-sized rounding error of the coefficients moves the
+    result), never for the reference value itself.
 
     lam, u: complex arrays of identical (broadcastable) shape; nonlin: callable
     on such arrays.  Stage arithmetic in complex128.
@@ -303,19 +307,30 @@ def etdrk_ref(order, dt, lam, u, nonlin):
     lam = np.asarray(lam, dtype=complex)
     u = np.asarray(u, dtype=complex)
     z = lam * dt
-    E = _exp(z)
+    if jitter is not None:
+        _rng = np.random.default_rng(jitter[0])
+
+        def J(x):
+            x = np.asarray(x, dtype=complex)
+            return x * (1 + jitter[1] * (_rng.standard_normal(x.shape) + 1j * _rng.standard_normal(x.shape)))
+    else:
+
+        def J(x):
+            return x
+
+    E = J(_exp(z))
     if order == 0:
         return E * u
     Nu = nonlin(u)
-    p1 = phi1(z)
+    p1 = J(phi1(z))
     if order == 1:
         return E * u + dt * p1 * Nu
     if order == 2:
         a = E * u + dt * p1 * Nu
-        return a + dt * phi2(z) * (nonlin(a) - Nu)
-    Eh = _exp(z / 2)
-    h = phi1(z / 2) / 2
-    f1, f2, f3 = cm_f1(z), cm_f2(z), cm_f3(z)
+        return a + dt * J(phi2(z)) * (nonlin(a) - Nu)
+    Eh = J(_exp(z / 2))
+    h = J(phi1(z / 2) / 2)
+    f1, f2, f3 = J(cm_f1(z)), J(cm_f2(z)), J(cm_f3(z))
     if order == 3:
         a = Eh * u + dt * h * Nu
         Na = nonlin(a)
